@@ -2,6 +2,7 @@ import Driver.Proto
 import AdaptaVerif.Model.Pins
 import AdaptaVerif.Check.Attach
 import AdaptaVerif.Model.CheckpointLegs
+import AdaptaVerif.Model.AStarPins
 /-!
 Driver mode `c11`: pins / junctions / checkpoints (see harness/c11.cpp for the line format).
 Per step (= one `Router::processTransaction`) the implementation's observables are checked:
@@ -17,6 +18,14 @@ Per step (= one `Router::processTransaction`) the implementation's observables a
   `VertInf::setVisibleDirections` / `directionFrom` (Model/CheckpointLegs.lean) computes for the
   same edges and masks — by `Props/C11Legs.generateCheckpointsPath_restores` /
   `history_never_restricted`: none disabled.
+* The orthogonal A* search (harness/c11_search.h: the graph every search was given, read through the library's
+  DebugHandler): the model of the search for pin-attached ends and checkpoint legs (Model/AStarPins.lean on top of
+  Model/AStar.lean) is run on the dumped graph with the END-POINT LIST OF THE TURN PRUNING COMPUTED FROM THE MODEL'S PIN
+  STATE (`possiblePinPoints`; the state is advanced by the `srouted` events in the order the library routed).  A search
+  that failed in the library although the model finds a route is never the known class no-path: SPECFAIL
+  `[no-path-but-model-routes]` when the connector ends up with the no-path fallback (the end clause of the property fails
+  and the model exhibits a route of libavoid's own graph to a free pin), DIVERGE otherwise.  Where both find a route the
+  routes are compared vertex for vertex.
 * A connector that skips a checkpoint / stops at one while edges of its checkpoint vertices are
   (or were, at the end of the previous transaction) still disabled is a SPECFAIL of the checkpoint /
   end clause outside every finding class: the search ran on a graph the protocol had not restored.
@@ -85,8 +94,42 @@ structure Obs where
   skips : Option (List Nat) := none                     -- connectors with a "skipping checkpoint" diagnostic in this transaction
   deriving Inhabited
 
+/-- header of an `ssearch` line -/
+structure SearchHdr where
+  conn : Nat
+  n : Nat
+  src : Nat
+  tar : Nat
+  prevOfStart : Option Nat
+  lineSrc : Nat
+  lineDst : Nat
+  found : Bool
+  path : List Nat
+  deriving Inhabited
+
+/-- events of a transaction in the order they happened (harness/c11_search.h) -/
+inductive SEv where
+  | search (h : SearchHdr) (g : Option AdaptaVerif.Model.AStarPins.PGraph)
+  | routed (conn : Nat) (route : List P2)
+  | cross
+  deriving Inhabited
+
+/-- verdict of the model on one search of the library -/
+structure SearchRes where
+  conn : Nat
+  libFound : Bool
+  modelRoute : Option (List P2)     -- `none`: the model finds no path either
+  deriving Inhabited
+
 structure St where
   pins : List PinRec := []
+  segPen : Rat := 10              -- routingParameter(segmentPenalty): library default unless a `pens` line says otherwise
+  sev : Array SEv := #[]          -- events of the current transaction
+  sres : List SearchRes := []     -- searches of the current transaction that were dumped and judged
+  sgx : Array Rat := #[]          -- graph lines of the search being read
+  sgy : Array Rat := #[]
+  sgf : Array Nat := #[]
+  sgp : Array Nat := #[]
   conns : List ConnRec := []
   prev : Obs := {}
   cur : Obs := {}
@@ -363,6 +406,92 @@ def checkLegDirections (s : St) : St := Id.run do
         s := { s with divs := s!"step {s.stepNo}: connector {c.id} (masks {c.cpd}): in every decomposition of route() into legs some leg uses an edge that the model of generateCheckpointsPath says is disabled during that leg's search (search_sees_arrival/_departure), e.g. {bad (decs.headD [])}; route() {rl.map showP}" :: s.divs }
   return s
 
+/-! ### the A* search of pin-attached / checkpoint connectors (Model/AStarPins.lean) against the real one -/
+
+def toPt (p : P2) : AdaptaVerif.Model.Geometry.Pt := ⟨p.x, p.y⟩
+def ofPt (p : AdaptaVerif.Model.Geometry.Pt) : P2 := ⟨p.x, p.y⟩
+
+/-- the model's pin state at the start of `Router::rerouteAndCallbackConnectors`: the live pins with the
+    exclusivity the library reports, no users ("every connector frees its pins", router.cpp) -/
+def pinState0 (s : St) : State :=
+  s.cur.pins.filterMap (fun po => (s.pins.find? (·.id == po.id)).map (fun pr => ⟨po.id, pr.shape, pr.spec.classId, po.excl, []⟩))
+
+/-- the pin a routed end took (`usePinVertex`): a candidate pin of its class at the route's end point -/
+def takenPin (s : St) (ms : State) (e : EndK) (p : Option P2) : Option Nat :=
+  match e, p with
+  | .pin sh cls, some p0 =>
+    let here := (freePins ms sh cls).filter (fun q => (s.cur.pins.find? (·.id == q.id)).any (·.pos == p0))
+    ((here.filter (fun q => !q.exclusive)) ++ (here.filter (·.exclusive))).head?.map (·.id)
+  | _, _ => none
+
+/-- Runs through the events of the transaction: `srouted` advances the model's pin state (the connector takes the
+    pins its route ends at), `scross` releases the connectors the crossing stage is about to search again, every
+    dumped `ssearch` is given to the model with the end-point list `possiblePinPoints` of the CURRENT model state. -/
+def checkSearches (s : St) : St := Id.run do
+  let mut s := s
+  let mut ms : State := pinState0 s
+  let mut inCross := false
+  let mut lastHdr : List (Nat × SearchHdr) := []
+  let posOf (id : Nat) : Option AdaptaVerif.Model.Geometry.Pt := (s.cur.pins.find? (·.id == id)).map (fun po => toPt po.pos)
+  for i in [0:s.sev.size] do
+    match s.sev[i]! with
+    | .cross =>
+      inCross := true
+      for j in [i+1:s.sev.size] do
+        match s.sev[j]! with
+        | .search h _ => ms := step ms (.release h.conn)
+        | _ => pure ()
+    | .routed c r =>
+      match s.conns.find? (·.id == c) with
+      | none => pure ()
+      | some cr =>
+        -- `path.size() > 2` in generatePath: a standard search that failed leaves the 2-vertex dummy line and takes no pin
+        let took := match lookup lastHdr c with
+          | some h => !cr.cps.isEmpty || (h.found && h.path.length > 2)
+          | none => true
+        if took then
+          let ms1 := step ms (.release c)
+          ms := step ms1 (.route c (takenPin s ms1 cr.src r.head?) (takenPin s ms1 cr.dst r.getLast?))
+        if !invB ms then
+          s := { s with divs := s!"step {s.stepNo}: model pin state: exclusive pin with two users after connector {c} was routed" :: s.divs }
+    | .search h og =>
+      lastHdr := (h.conn, h) :: lastHdr.filter (·.1 != h.conn)
+      s := bump s "search.total"
+      if !h.found then s := bump s "search.failed"
+      match og, s.conns.find? (·.id == h.conn) with
+      | some g0, some cr =>
+        let endPts : List AdaptaVerif.Model.Geometry.Pt := match cr.dst with
+          | .pin sh cls => AdaptaVerif.Model.AStarPins.possiblePinPoints ms posOf sh cls
+          | .junc j => ((s.cur.juncs.find? (·.id == j)).map (fun jo => [toPt jo.pos])).getD []
+          | .free _ => []
+        let g := { g0 with endPts := endPts }
+        s := bump s "search.modelled"
+        if !endPts.isEmpty then s := bump s "search.modelled.with-pin-endpoints"
+        if (match cr.dst with | .pin sh cls => (freePins ms sh cls).any (fun p => !p.exclusive && !p.users.isEmpty) | _ => false) then
+          s := bump s "search.dst-shared-pin-in-use"
+        if h.prevOfStart.isSome then s := bump s "search.modelled.later-leg"
+        let mr := g.route
+        let showR (r : List Nat) : String := toString ((r.map g.pt).map (fun p => showP (ofPt p)))
+        s := { s with sres := s.sres ++ [⟨h.conn, h.found, mr.map (fun r => r.map (fun v => ofPt (g.pt v)))⟩] }
+        match h.found, mr with
+        | false, none => s := bump s "search.nopath-both"
+        | false, some r =>
+          s := bump s "search.nopath-but-model-routes"
+          s := { s with divs := s!"step {s.stepNo}: connector {h.conn}: the library's A* search from {showP (ofPt (g.pt h.src))} to {showP (ofPt (g.pt h.tar))} found no path, the model of the search (clean makepath.cpp; end-point list {endPts.map (fun p => showP (ofPt p))} from the model's pin state) returns {showR r} on the same graph" :: s.divs }
+        | true, none =>
+          s := { s with divs := s!"step {s.stepNo}: connector {h.conn}: the library's A* search returned {showR h.path}, the model of the search finds no path on the same graph (end-point list {endPts.map (fun p => showP (ofPt p))})" :: s.divs }
+        | true, some r =>
+          if inCross then s := bump s "search.found-both.crossing-stage"
+          else if r == h.path then s := bump s "search.route-equal"
+          else
+            let b := g.base
+            let cm := AdaptaVerif.Model.AStar.fullCost b none r
+            let ci := AdaptaVerif.Model.AStar.fullCost b none h.path
+            s := bump s "search.route-differs"
+            s := { s with divs := s!"step {s.stepNo}: connector {h.conn}: A* search: library route {showR h.path} (cost {ratToString ci}) ≠ model route {showR r} (cost {ratToString cm}); end-point list {endPts.map (fun p => showP (ofPt p))}" :: s.divs }
+      | _, _ => pure ()
+  return s
+
 structure EndObs where
   hyper : Bool         -- the connector has a junction end (member of a hyperedge)
   conn : Nat
@@ -477,7 +606,14 @@ def checkEnds (s : St) : St := Id.run do
   let np := noPathConns s og
   for c in np do
     let cr := (s.conns.find? (·.id == c)).getD default
-    if leftover s cr then
+    let judged := s.sres.filter (fun r => r.conn == c && !r.libFound)
+    if judged.isEmpty then s := bump s "nopath.search-not-modelled"
+    else if judged.all (·.modelRoute.isNone) then s := bump s "nopath.model-agrees"
+    if let some r := judged.findSome? (·.modelRoute) then
+      -- never the known class no-path: the search as coded in the unchanged library finds a route on the very graph
+      -- the library searched (end-point list from the model's pin state)
+      s := { s with fails := s!"[no-path-but-model-routes] step {s.stepNo}: connector {c}: route() is the no-path fallback {((lookup s.cur.routes c).getD []).map showP} although free pins exist, and the model of libavoid's A* search (clean makepath.cpp, end-point list of the turn pruning computed from the model's pin state: a pin is a candidate iff it is non-exclusive or has no user) finds the route {r.map showP} on the graph the library searched" :: s.fails }
+    else if leftover s cr then
       -- not the known class: the search ran on a graph on which an earlier search of this connector had
       -- left edges of its checkpoint vertices disabled
       s := { s with fails := s!"cp-restricted: step {s.stepNo}: connector {c}: route() is the no-path fallback (straight dummy line / stops at a checkpoint) {((lookup s.cur.routes c).getD []).map showP}; visibility edges of its checkpoint vertices were left disabled by an earlier search ({taintOf s.taintPrev c} after the previous transaction, {taintOf s.taint c} after this one)" :: s.fails }
@@ -679,6 +815,7 @@ def endStep (s : St) : St :=
       { s with skipped := sk ++ cleared.filter (fun c => !sk.contains c) }
     | none => { s with skipped := s.conns.map (·.id) }
   let s := checkLegDirections s
+  let s := checkSearches s
   let s := checkEnds s
   let s := checkOthers s
   { s with prev := s.cur, cur := {}, stats := bumpStats s.stats "steps" 1 }
@@ -702,7 +839,49 @@ def feed (s : St) (l : Array String) : St :=
     let ds := (List.range (nat! l[2]!)).map (fun i => (nat! l[3 + 2 * i]!, nat! l[4 + 2 * i]!))
     let s := ds.foldl (fun s (a, d) => bump s ("cpdirs." ++ (if a == 15 then "A" else "r") ++ (if d == 15 then "A" else "r"))) s
     { s with conns := s.conns.map (fun c => if c.id == id then { c with cpd := ds } else c) }
-  | "pens" => if rat! l[2]! > 0 || rat! l[3]! > 0 then { (bump s "cfg.crossing-stage") with crossStage := true } else s
+  | "pens" =>
+    let s := { s with segPen := rat! l[1]! }
+    if rat! l[2]! > 0 || rat! l[3]! > 0 then { (bump s "cfg.crossing-stage") with crossStage := true } else s
+  | "sbegin" => { s with sev := #[], sres := [] }
+  | "ssearch" =>
+    let plen := nat! l[9]!
+    let pv := int! l[5]!
+    let h : SearchHdr := ⟨nat! l[1]!, nat! l[2]!, nat! l[3]!, nat! l[4]!, if pv < 0 then none else some pv.toNat, nat! l[6]!, nat! l[7]!,
+      l[8]! == "1", (List.range plen).map (fun i => nat! l[10 + i]!)⟩
+    { s with sev := s.sev.push (.search h none) }
+  | "sisolated" =>
+    -- a failed search from a source without enabled edges / to a target without edges: the model's loop ends at once
+    let h : SearchHdr := ⟨nat! l[1]!, 0, 0, 0, none, 0, 0, false, []⟩
+    if nat! l[2]! == 0 || nat! l[3]! == 0 then
+      { (bump s "search.isolated-end") with sev := s.sev.push (.search h none), sres := s.sres ++ [⟨h.conn, false, none⟩] }
+    else s
+  | "sgx" => { s with sgx := (l.extract 1 l.size).map rat! }
+  | "sgy" => { s with sgy := (l.extract 1 l.size).map rat! }
+  | "sgf" => { s with sgf := (l.extract 1 l.size).map nat! }
+  | "sgp" => { s with sgp := (l.extract 1 l.size).map nat! }
+  | "sga" =>
+    match s.sev.back? with
+    | some (.search h none) =>
+      let n := s.sgx.size
+      let adj : Array (List AdaptaVerif.Model.AStarPins.PEdge) := Id.run do
+        let mut out : Array (List AdaptaVerif.Model.AStarPins.PEdge) := Array.mkEmpty n
+        let mut i := 1
+        for _ in [0:n] do
+          let deg := nat! (l.getD i "0")
+          i := i + 1
+          let mut es : Array AdaptaVerif.Model.AStarPins.PEdge := Array.mkEmpty deg
+          for _ in [0:deg] do
+            es := es.push ⟨nat! (l.getD i "0"), rat! (l.getD (i + 1) "0"), l.getD (i + 2) "0" == "1", l.getD (i + 3) "0" == "1"⟩
+            i := i + 4
+          out := out.push es.toList
+        return out
+      let g : AdaptaVerif.Model.AStarPins.PGraph :=
+        { pts := (Array.range n).map (fun i => ⟨s.sgx[i]!, s.sgy.getD i 0⟩), adj := adj, vflags := s.sgf, props := s.sgp,
+          src := h.src, tar := h.tar, prevOfStart := h.prevOfStart, lineSrc := h.lineSrc, lineDst := h.lineDst, segPen := s.segPen }
+      { s with sev := s.sev.pop.push (.search h (some g)), sgx := #[], sgy := #[], sgf := #[], sgp := #[] }
+    | _ => s
+  | "srouted" => { s with sev := s.sev.push (.routed (nat! l[1]!) (ptsFrom l 3 (nat! l[2]!))) }
+  | "scross" => { s with sev := s.sev.push .cross }
   | "cpv" =>
     let n := int! l[3]!
     let es : Option (List CpEdge) := if n < 0 then none else
@@ -767,7 +946,8 @@ def checkCase (strict : List String) (c : Case) : CaseResult := Id.run do
   -- failures outside every finding class rank above the gated "[class] …" ones, so that a known
   -- defect met earlier in the case cannot mask them
   let fs := s.fails.reverse
-  match (fs.filter (fun m => !m.startsWith "[")) ++ (fs.filter (fun m => m.startsWith "[")), s.divs.reverse with
+  let gatedMsg (m : String) : Bool := m.startsWith "[" && !m.startsWith "[no-path-but-model-routes]"
+  match (fs.filter (fun m => !gatedMsg m)) ++ (fs.filter gatedMsg), s.divs.reverse with
   | f :: _, _ => return { verdict := .specfail f, nontrivial := s.nontrivial, stats := stats }
   | [], d :: _ => return { verdict := .diverge d, nontrivial := s.nontrivial, stats := stats }
   | [], [] => return { verdict := .ok, nontrivial := s.nontrivial, stats := stats }
